@@ -13,7 +13,7 @@
 (* whose Close publishes "the snapshot taken at the look-up minus the id"): *)
 (* TLC shows what it breaks (MGR_snapshot.cfg).                             *)
 (***************************************************************************)
-EXTENDS Integers, Sequences, FiniteSets, TLC
+EXTENDS RegistryOps
 CONSTANTS Ids, MaxCalls, SnapshotDelete
 VARIABLES reg,      \* id -> engine number (the registry)
           open,     \* set of calls in progress: [c, op, id, found, eng, snap]
@@ -23,12 +23,6 @@ VARIABLES reg,      \* id -> engine number (the registry)
           last      \* the call that ended last: [op, id, found, res]
 vars == <<reg, open, ncall, neng, live, gone, last>>
 
-Empty == [i \in {} |-> 0]
-Put(r, id, e) == [i \in DOMAIN r \cup {id} |-> IF i = id THEN e ELSE r[i]]
-Del(r, id) == [i \in DOMAIN r \ {id} |-> r[i]]
-Found(r, id) == id \in DOMAIN r
-(* the registry after a close / release that looked the table up in snap and found it *)
-AfterRemove(r, snap, id) == IF SnapshotDelete THEN Del(snap, id) ELSE Del(r, id)
 ResOf(found) == IF found THEN "ok" ELSE "ErrManagerTableNotFound"
 
 Init == /\ reg = Empty /\ open = {} /\ ncall = 0 /\ neng = 0 /\ live = {} /\ gone = Ids
@@ -48,7 +42,7 @@ End(o) ==
   /\ open' = open \ {o}
   /\ last' = [op |-> o.op, id |-> o.id, found |-> o.found, res |-> IF o.op = "create" THEN "ok" ELSE ResOf(o.found), wasLive |-> o.wasLive, wasGone |-> o.wasGone]
   /\ CASE o.op = "create" -> reg' = Put(reg, o.id, o.eng) /\ live' = live \cup {o.id} /\ gone' = gone \ {o.id}
-       [] o.op \in {"close", "release"} /\ o.found -> reg' = AfterRemove(reg, o.snap, o.id) /\ gone' = gone \cup {o.id} /\ live' = live
+       [] o.op \in {"close", "release"} /\ o.found -> reg' = AfterRemove(reg, o.snap, o.id, SnapshotDelete) /\ gone' = gone \cup {o.id} /\ live' = live
        [] OTHER -> UNCHANGED <<reg, live, gone>>
   /\ UNCHANGED <<ncall, neng>>
 Next == \/ \E id \in Ids, op \in {"create", "close", "release", "forward"} : Begin(op, id)
